@@ -105,6 +105,8 @@ def boundary_tokens(tier):
     out = []
     for n in sizes:
         out += [('int%+d' % (n - limit), '9' * n), ('int%+d' % (n - limit), '1' + '0' * (n - 1))]
+    for n in (308, 309, 310):          # the range of a double: int -> float conversion overflows from 1e309 on
+        out += [('int~1e%d' % n, '1' + '0' * n), ('float~1e%d' % n, '1' + '0' * n + '.0')]
     for n in (limit, limit + 1):
         out += [('float', '1' * n + '.5'), ('float', '0.' + '1' * n), ('zeros', '0' * n + '7')]
     big = 5000
@@ -142,6 +144,16 @@ def gen_boundary(rng, engine, tier):
                 if quick and rng.random() < 0.6:
                     continue
                 yield 'boundary-substituted', v[:s_] + ' ' + b + ' ' + v[e_:]
+    # every run of 1-4 tokens of an expression said TWICE (as a further comma-separated item): the same keyword argument,
+    # dictionary key, element, variable ... a second time, in valid and invalid places
+    for v in BOUNDARY_BASES + ['f(a => 1)', 'f(1, a => 2, b => 3)', '{a => 1}', "dict(a => 1, 'b' => 2)", '$.f(x => $, y => 1)']:
+        spans = token_spans(engine, v)
+        for i in range(len(spans)):
+            for j in range(i + 1, min(len(spans), i + 4) + 1):
+                s_, e_ = spans[i][0], spans[j - 1][1]
+                yield 'said-twice', v[:e_] + ', ' + v[s_:e_] + v[e_:]
+                if not quick or rng.random() < 0.3:
+                    yield 'said-twice', v[:e_] + ' ' + v[s_:e_] + v[e_:]
     for _ in range(100 if quick else 1500):
         k = rng.randrange(2, 8)
         parts = [rng.choice(ATOMS) for _ in range(k)]
@@ -329,7 +341,7 @@ def run(env, res):
             continue
         seen.add((kind, text))
         for ename, eng in engines.items():
-            if ename != 'default' and kind not in ('seq1', 'seq2', 'mut-del', 'soup', 'escape', 'boundary-alone', 'boundary-substituted'):
+            if ename != 'default' and kind not in ('seq1', 'seq2', 'mut-del', 'soup', 'escape', 'boundary-alone', 'boundary-substituted', 'said-twice'):
                 continue
             signal.alarm(20)
             try:
